@@ -84,6 +84,19 @@ func (v *FnVC) calleeName(c *ssa.CallCommon) (name string, fn *ssa.Function) {
 			}
 		}
 	}
+	// any other function-typed local value that the source names (e.g. the result of a map lookup stored in a
+	// variable): contract "<enclosing function>#<name>$call"
+	if _, isF := c.Value.Type().Underlying().(*types.Signature); isF {
+		for _, b := range v.Fn.Blocks {
+			for _, ins := range b.Instrs {
+				if d, ok := ins.(*ssa.DebugRef); ok && !d.IsAddr && d.X == c.Value {
+					if n := identName(d); n != "" {
+						return v.funVarContractName(n), nil
+					}
+				}
+			}
+		}
+	}
 	return "", nil
 }
 
